@@ -114,11 +114,16 @@ func (c *Cluster) serveFrame(addr string, s *Server, f *Frame, frameNo int, comp
 				send(nil, excOf(r), nil)
 			default:
 				sr := &pb.ScanResponse{MoreResults: proto.Bool(false), MoreResultsInRegion: proto.Bool(false)}
-				if found != nil {
-					sr.CellsPerResult = []uint32{uint32(len(r.Cells))}
+				cells := r.Cells
+				if c.MetaHook != nil {
+					// structurally valid rows with odd contents in answer to a lookup
+					cells = c.MetaHook(req.GetScan().GetStartRow(), cells)
+				}
+				if found != nil || len(cells) > 0 {
+					sr.CellsPerResult = []uint32{uint32(len(cells))}
 					sr.PartialFlagPerResult = []bool{false}
 				}
-				send(sr, nil, r.Cells)
+				send(sr, nil, cells)
 			}
 			return
 		}
